@@ -264,6 +264,11 @@ where
 
     #[inline]
     fn add_segment(&mut self, segment: &'a InputSegment<EntryType>) -> Result<(), &'static str> {
+        // Segments come from the control plane and are not to be trusted: a malformed segment must
+        // not contribute edges, otherwise it yields paths that contradict their own metadata (or
+        // none at all) and can shadow the same route offered by a well-formed segment.
+        Self::check_well_formed(segment.path_segment())?;
+
         match segment {
             InputSegment::Core(..) => {
                 self.add_core_segment(segment)?;
@@ -282,6 +287,29 @@ where
     ///
     /// Returns Ok if the edge was added successfully, or an error if the segment does not
     /// contain any hops.
+    /// Checks the structural invariants every beaconed segment fulfils: no wildcard or repeated
+    /// AS, the first entry has no ingress and the last no egress interface, and all interfaces in
+    /// between are set.
+    fn check_well_formed(segment: &PathSegment<EntryType>) -> Result<(), &'static str> {
+        let len = segment.len();
+        let mut seen = HashSet::with_capacity(len);
+        for (idx, entry) in segment.iter().enumerate() {
+            if entry.local.is_wildcard() || !seen.insert(entry.local) {
+                return Err("Segment contains a wildcard or repeated AS");
+            }
+
+            let hop_field = &entry.hop_entry.hop_field;
+            if (hop_field.cons_ingress == 0) != (idx == 0) {
+                return Err("Segment has an unexpected construction ingress interface");
+            }
+            if (hop_field.cons_egress == 0) != (idx == len - 1) {
+                return Err("Segment has an unexpected construction egress interface");
+            }
+        }
+
+        Ok(())
+    }
+
     #[inline]
     fn add_core_segment(
         &mut self,
